@@ -169,11 +169,13 @@ func genC15(t *rapid.T) c15Case {
 				if i == 0 && len(op.Specs) == 0 && rapid.IntRange(0, 3).Draw(t, "first_index") > 0 {
 					sp.Kind = "index" // something for data channels to refer to
 				}
-				if op.Opt != "" {
+				if op.Opt != "" && !c.Validate {
 					// what the two options do to names that occur twice in one batch depends
 					// on the order in which the service works through the batch, which is no
 					// one's contract: such batches carry distinct names (also counting the
-					// "_time" index a calculated channel brings along)
+					// "_time" index a calculated channel brings along). With name validation
+					// on the outcome is defined (the request is refused: duplicate name), so
+					// there repeated names stay in.
 					if taken[sp.Name] || (sp.Kind == "calc" && taken[sp.Name+"_time"]) {
 						continue
 					}
